@@ -66,13 +66,21 @@ def run_property(pid, tier):
         for r in recs:
             r["module"] = part["module"]
             r["include_all"] = bool(part.get("include_all"))
+            r["also_tags"] = list(part.get("also_tags", ()))
         records.extend(recs)
         if dropped_obs:
             records.append({"unit": "houdini", "title": "invariant conjuncts that are not inductive", "kind": "houdini",
                             "functions": [], "paths": 0, "live_paths": 1, "time": 0, "obligations": dropped_obs,
                             "noops": [], "inlined": [], "contracts_used": [], "lib_used": [], "samples": [],
-                            "notes": [], "error": None, "module": part["module"]})
+                            "notes": [], "error": None, "module": part["module"],
+                            "also_tags": list(part.get("also_tags", ()))})
     return records, houdini_log
+
+
+def rel(ob, r, pid):
+    """Is obligation `ob` of unit record `r` one of property `pid`'s?  A part of the registry may take all obligations
+    of its units (include_all) or those tagged with other properties the statement of `pid` builds on (also_tags)."""
+    return relevant(ob, pid) or bool(r.get("include_all")) or any(t in ob["props"] for t in r.get("also_tags", ()))
 
 
 def relevant(ob, pid):
@@ -196,7 +204,7 @@ def main():
     obs = []
     for r in records:
         for ob in r["obligations"]:
-            if relevant(ob, pid) or r.get("include_all"):
+            if rel(ob, r, pid):
                 ob = dict(ob)
                 ob["unit"] = r["title"]
                 obs.append(ob)
@@ -288,7 +296,7 @@ def main():
     units_ev = []
     for r in records:
         units_ev.append({"unit": r["title"], "kind": r["kind"], "functions": r["functions"], "paths": r["paths"],
-                         "obligations": len([o for o in r["obligations"] if relevant(o, pid) or r.get("include_all")]),
+                         "obligations": len([o for o in r["obligations"] if rel(o, r, pid)]),
                          "time_s": r["time"], "error": r["error"]})
     by_backend = {}
     st = 0.0
